@@ -28,7 +28,7 @@ EXTENDS UrwidScreenCore, Json
 CONSTANTS Ident,      \* "kitty" | "konsole" | "other"
           Style3,     \* style of widget slot 3: "block" | "iterm2" | "kitty"
           Bits,       \* z-index space (see AllocOutcomes)
-          Fams,       \* layout families explored, subset of {"P","Q","S","O","L","F","T","I"}
+          Fams,       \* layout families explored, subset of {"P","Q","R","S","O","L","F","T","I"}
           WithBad,    \* explore RedrawBad
           WithInv,    \* explore redraws after invalidating one of the widgets shown
           Dyn         \* explore NewWidget / DropWidget (otherwise all three widgets live from the start)
@@ -88,6 +88,7 @@ LayF(a) == [k |-> "fill", c |-> Img(2), va |-> CASE a = 0 -> "top" [] a = 1 -> "
 Lay(p) ==
   CASE p.f = "P" -> LayP(p.a, p.b, p.c, p.d)
     [] p.f = "Q" -> LayP(p.a, p.b, p.c, p.d)      \* a small sub-family of P
+    [] p.f = "R" -> LayP(p.a, p.b, p.c, p.d)      \* a smaller one (tall image always shown)
     [] p.f = "S" -> LayS(p.a, p.b)
     [] p.f = "O" -> LayO(p.a, p.c)
     [] p.f = "L" -> LayL(p.a)
@@ -98,6 +99,7 @@ Lay(p) ==
 AllParams ==
   {Par("P", a, b, c, d) : a \in 0..2, b \in 0..1, c \in 0..1, d \in 0..2}
     \cup {Par("Q", a, 0, c, d) : a \in 0..1, c \in 0..1, d \in 0..1}
+    \cup {Par("R", a, 0, 1, d) : a \in 0..1, d \in 0..1}
     \cup {Par("S", a, b, 0, 0) : a \in 0..2, b \in 0..2}
     \cup {Par("O", a, 0, c, 0) : a \in 1..Len(OvRect), c \in 0..1}
     \cup {Par("L", a, 0, 0, 0) : a \in 0..4}
